@@ -36,6 +36,8 @@ FileMuts(g) ==
   \cup {[f |-> "hcheck", b |-> 0, v |-> c] : c \in {0, 1, 4} \ {g.check}}
   \cup {[f |-> "fcheck", b |-> 0, v |-> c] : c \in {0, 1, 4, 10} \ {g.check}}
   \cup {[f |-> "idxN", b |-> 0, v |-> v] : v \in {g.idxN + 1} \cup (IF g.idxN > 0 THEN {g.idxN - 1} ELSE {})}
+  \* a self-consistent SHORTER index: count k, the first k records, padding / CRC / backward size all right for it
+  \cup {[f |-> "idxFewer", b |-> 0, v |-> k] : k \in 0..(g.idxN - 1)}
   \cup {[f |-> "backward", b |-> 0, v |-> v] : v \in {g.backward + 1, g.backward + 2 ^ (BwBits - 2)} \cup (IF g.backward > 0 THEN {g.backward - 1} ELSE {})}
   \cup {[f |-> "trailing", b |-> 0, v |-> v] : v \in {1, 4}}
 BlockMuts(g, i) ==
@@ -73,6 +75,8 @@ Mutate(g, m) ==
     [] m.f = "fnull"   -> [g EXCEPT !.fnull = FALSE]
     [] m.f = "fmagic"  -> [g EXCEPT !.fmagicOk = FALSE]
     [] m.f = "idxN"    -> [g EXCEPT !.idxN = m.v]
+    [] m.f = "idxFewer" -> [g EXCEPT !.idxN = m.v, !.idxRecs = SubSeq(@, 1, m.v),
+                                      !.backward = (IndexSize(m.v, SubSeq(g.idxRecs, 1, m.v)) \div 4) - 1]
     [] m.f = "backward" -> [g EXCEPT !.backward = m.v]
     [] m.f = "trailing" -> [g EXCEPT !.trailing = m.v]
     [] m.f = "reserved" -> [g EXCEPT !.blocks[m.b].reserved = TRUE]
